@@ -11,8 +11,11 @@ ASSUMPTIONS = [
     'sizes are positive integers, rate >= 0, an `out` is attached',
     'theorems are over exact rationals; the replay compares IEEE doubles bit for bit',
     'RED: the uniform draws are inputs of the model (recorded from the implementation); nothing is claimed about their distribution',
-    'the port process on the real kernel refines the FifoServer LTS: checked by replay (labels from Process.target), not proved',
+    'the port process on the real kernel refines the FifoServer LTS: checked by replay (labels from Process.target); proved for the Port without RED '
+    '(qlimit None or a byte limit, every rate, one source) as a process on the kernel *model* K (Props/C09K.lean); '
+    'not for the packet-count limit and RED',
 ]
+EXTRA_MODULES = ('OnlVerif.Props.C09K',)
 TRUSTED_EXTRA = ['the kernel guarantees (G1-G3) that make `tick` admissible only at quiescence are theorems of model K (C01), assumed for the device LTS']
 
 
@@ -222,6 +225,91 @@ def red_oracle(c, run):
     return fails
 
 
+# ---- the Port as a process on the kernel MODEL (lean/OnlVerif/Net/PortOnK.lean, driver mode `portk`) -------------
+
+def gen_portk(rng, cid):
+    """one source, no limit or a byte limit, every rate class; gaps chosen so that arrivals hit departure instants"""
+    rate = rng.choice([0.0, 8.0, 8.0, 8.0, 64.0, 3.0, 100.0, 1e6, -1.0])
+    sizes = [1, 2, 3, 5, 10] if rate == 8.0 else [10, 50, 60, 100, 200, 1500]
+    ql = rng.choice([None, None, 0, 3, 5, 8, 12]) if rate == 8.0 else rng.choice([None, None, 0, 60, 100, 150, 400, 3000])
+    arr = []
+    for _ in range(rng.randint(0, 12)):
+        gap = rng.choice([0, 0, 0, 1, 1, 2, 3, 5, 10, 12.5, 0.5, round(rng.random() * 30, 3)])
+        arr.append((gap, rng.choice(sizes)))
+    return {'cid': f'k{cid}', 'portk': True, 'rate': rate, 'qlimit': ql, 'arrivals': arr}
+
+
+def portk_text(c):
+    ql = 'None' if c['qlimit'] is None else str(c['qlimit'])
+    return [f"CASE {c['cid']} {bits(c['rate'])} {ql}"] + [f'arr {bits(g)} {i} {s}' for i, (g, s) in enumerate(c['arrivals'])] + ['END']
+
+
+def portk_impl(c):
+    """the real Port and a real source process on the real kernel, public API only; same lines as the driver prints"""
+    from onl.packet import Packet
+    env = Environment()
+    port = Port(env, c['rate'], c['qlimit'], True, '')
+    outs = []
+
+    class Rec:
+        def put(self, packet):
+            outs.append(f'out {packet.packet_id} {bits(env.now)}')
+    port.out = Rec()
+
+    def src():
+        for i, (gap, size) in enumerate(c['arrivals']):
+            yield env.timeout(gap)
+            port.put(Packet(env.now, size, i, src='src', flow_id=0))
+    env.process(src())
+    try:
+        with quiet():
+            env.run()
+        tag = 'RET'
+    except BaseException as x:
+        tag = f'RAISED {type(x).__name__}'
+    return ([tag] + outs + [f'cells bs={port.byte_size} rc={port.packets_received} dr={port.packets_dropped} '
+                            f'busy={port.busy} bsz={port.busy_packet_size}', f'now {bits(env.now)}'])
+
+
+def portk_oracle(c, lines):
+    """the recurrence, restated over the implementation's own observations (no limit only)"""
+    if c['qlimit'] is not None or lines[0] != 'RET':
+        return [] if lines[0] == 'RET' else [{'what': f'the run ended with {lines[0]}', 'signature': 'portk-raised'}]
+    from vlib.util import unbits
+    outs = [(int(l.split()[1]), unbits(int(l.split()[2]))) for l in lines if l.startswith('out ')]
+    t, prev, want = 0.0, None, []
+    for i, (gap, size) in enumerate(c['arrivals']):
+        t = t + gap
+        start = t if prev is None or t > prev else prev
+        prev = start + size * 8 / c['rate'] if c['rate'] > 0 else start
+        want.append((i, prev))
+    if outs != want:
+        return [{'what': f'departures {outs[:6]} differ from the recurrence {want[:6]}', 'signature': 'portk-recurrence'}]
+    return []
+
+
+def run_portk(cases):
+    text, impl = [], {}
+    for c in cases:
+        impl[c['cid']] = portk_impl(c)
+        text += portk_text(c)
+    model = split_cases(run_driver('portk', '\n'.join(text) + '\n')) if cases else {}
+    dis, orc, nontriv = [], [], 0
+    for c in cases:
+        a, b = impl[c['cid']], model.get(c['cid'])
+        if a != b:
+            i = next((i for i in range(max(len(a), len(b or []))) if i >= len(a) or not b or i >= len(b) or a[i] != b[i]), 0)
+            dis.append({'case': c, 'detail': f'portk line {i}: impl `{a[i] if i < len(a) else None}` model `{b[i] if b and i < len(b) else None}`',
+                        'impl': a[:300], 'model': (b or [])[:300]})
+        for f in portk_oracle(c, a):
+            f['case'] = c; f['trace'] = a[:300]
+            orc.append(f)
+        gaps = [g for g, _ in c['arrivals']]
+        if len(gaps) >= 2 and (0 in gaps[1:] or ' dr=0 ' not in a[-2]):
+            nontriv += 1
+    return dis, orc, nontriv
+
+
 def run(ctx):
     rng = random.Random(f'C09-{ctx.seed}')
     if ctx.replay:
@@ -229,6 +317,10 @@ def run(ctx):
         cases = [j['case']] if j.get('case') else [d['case'] for d in j.get('broken_correspondence', [])]
     else:
         cases = [gen_case(rng, i) for i in range(500 if ctx.quick else 10000)]
+    krng = random.Random(f'C09-portk-{ctx.seed}')
+    kcases = [c for c in cases if c.get('portk')] if ctx.replay else \
+        [gen_portk(krng, i) for i in range(300 if ctx.quick else 5000)]
+    cases = [c for c in cases if not c.get('portk')]
     text, impl, runs = [], {}, {}
     for c in cases:
         r = run_impl(c)
@@ -260,8 +352,12 @@ def run(ctx):
             orc.append(f)
         if len(samples) < 2 and nt:
             samples.append({'config': {k: v for k, v in c.items() if k != 'sources'}, 'sources': c['sources'], 'actions': r.acts[:40]})
+    kdis, korc, knt = run_portk(kcases)
+    dis += kdis; orc += korc
     cov = {'evaluations': len(cases), 'distinct_nontrivial': nontriv,
            'rule': 'seeded random port configurations x arrival workloads (1-3 sources, bursts, arrivals at departure instants); non-trivial = distinct case with at least one drop or an arrival at the very instant of a departure',
            'samples': samples, 'traces_validated_against_impl': len(cases) - len(dis),
-           'action_lines_replayed': sum(len(r.acts) for r in runs.values()), 'operation_histogram': dict(sorted(hist.items()))}
+           'action_lines_replayed': sum(len(r.acts) for r in runs.values()), 'operation_histogram': dict(sorted(hist.items())),
+           'portk_program_runs': len(kcases), 'portk_runs_with_bursts_or_drops': knt,
+           'portk_rule': 'the Port-on-kernel-model program (PortOnK.lean) run by the driver vs the real Port + source process on the real kernel: how run() ended, every out.put (id, env.now bits), final attributes, final clock'}
     return {'coverage': cov, 'disagreements': dis, 'oracle_failures': orc}
